@@ -2,6 +2,7 @@ package main
 
 import (
 	"bytes"
+	"context"
 	"encoding/json"
 	"fmt"
 	"os"
@@ -9,6 +10,7 @@ import (
 	"path/filepath"
 	"sort"
 	"strings"
+	"time"
 
 	"github.com/go-spatial/geom"
 	"github.com/go-spatial/geom/cmp"
@@ -86,6 +88,7 @@ func checkC13(e *env) {
 	rd := realWindows[0].gs
 	wins := []window{realWindows[0], realWindows[1], realWindows[2]}
 	n := e.n(60, 2500)
+	hangs := 0
 	for it := 0; it < n; it++ {
 		w := wins[e.rng.Intn(len(wins))]
 		w.G = 16
@@ -202,12 +205,15 @@ func checkC13(e *env) {
 				give(b.name, b.alias, "true", true)
 			}
 		}
-		cmd := exec.Command(bin, args...)
+		ctx, cancel := context.WithTimeout(context.Background(), 30*time.Second)
+		cmd := exec.CommandContext(ctx, bin, args...)
 		cmd.Env = cleanEnv(envs)
 		var stderr bytes.Buffer
 		cmd.Stderr = &stderr
 		cmd.Stdout = &stderr
 		runErr := cmd.Run()
+		hung := ctx.Err() == context.DeadlineExceeded
+		cancel()
 		op := strings.TrimSpace(strings.Join(envs, " ") + " texel " + strings.Join(args, " "))
 		desc := op + fmt.Sprintf(" | %d table(s):", len(tables))
 		for _, t := range tables {
@@ -256,6 +262,15 @@ func checkC13(e *env) {
 			}
 		}
 		r.count("cli", desc, nontrivial)
+		if hung {
+			r.violation(Violation{Oracle: "tool-returns", Op: desc, Impl: "still running after 30 seconds (killed)", Detail: "sources of at most 3 tables of at most 25 features take well under a second"})
+			os.RemoveAll(caseDir)
+			if hangs++; hangs >= 3 {
+				r.Notes = append(r.Notes, "stopped after three runs that did not return")
+				break
+			}
+			continue
+		}
 		if libPanic != "" {
 			// the library panics on this input (outside grid without -iog): the tool must fail too
 			if runErr == nil {
